@@ -56,6 +56,6 @@ def tensorGuard : Bool := true
 def validateCatchAll : Bool := true
 
 /-- exception classes `dtype_to_tensor_type` turns into TypeError around onnx's table lookup (AST) -/
-def dtypeCatches : List String := ["KeyError"]
+def dtypeCatches : List String := ["KeyError", "ValueError"]
 
 end Generated.AttrKinds
